@@ -458,6 +458,45 @@ def same_named_helpers(res, tier):
     return n
 
 
+def nested_helper_edit(res):
+    """A program whose helper imports another helper (`outer.py`: `from inner import FACTOR`); between two compilations in one
+    process only the *inner* file is changed.  The second MIR must be the one a new interpreter produces from the files as
+    they are then — also for the helper that was not edited but holds what it imported."""
+    tmp = tempfile.mkdtemp(prefix="nvc08n")
+    n = 0
+    try:
+        files = {
+            "inner.py": "FACTOR = 3\n\n\ndef offset():\n    return 7\n",
+            "outer.py": "from nada_dsl import *\nfrom inner import FACTOR\nimport inner\n\n\ndef scale(x):\n    return x * Integer(FACTOR) + Integer(inner.offset())\n",
+            "prog.py": "from nada_dsl import *\nfrom outer import scale\n\n\ndef nada_main():\n    p = Party(name='P')\n    a = SecretInteger(Input(name='a', party=p))\n"
+                       "    return [Output(scale(a), 'o', p)]\n",
+            "inner_v2.txt": "FACTOR = 50000\n\n\ndef offset():\n    return 11\n",
+        }
+        for name, text in files.items():
+            with open(os.path.join(tmp, name), "w", encoding="utf-8") as f:
+                f.write(text)
+        prog, inner = os.path.join(tmp, "prog.py"), os.path.join(tmp, "inner.py")
+        hist = fresh_process("script", [prog, f"@write:{inner}={os.path.join(tmp, 'inner_v2.txt')}", prog], tmp)
+        alone = fresh_process("script", [prog], tmp)       # the files are in their second state now
+        n += 1
+        a, b = hist[-1], alone[-1]
+        if "harness" in (a.get("err"), b.get("err")):
+            raise RuntimeError(f"fresh process failed: {a.get('msg')} {b.get('msg')}")
+        text = None
+        if ("mir" in a) != ("mir" in b):
+            text = f"after the edit: {a.get('msg', 'compiled')}; in a new interpreter: {b.get('msg', 'compiled')}"
+        elif "mir" in a:
+            d = cm.first_diff(normalize(cm.canon_mir(a["mir"])), normalize(cm.canon_mir(b["mir"])))
+            if d:
+                text = f"MIR differs from the one a new interpreter produces from the same files: {d}"
+        if text:
+            res.violation({"property": "C08", "kind": "nested-helper-edit", "files": files, "text": text},
+                          f"prog.py compiled, inner.py (imported by outer.py) edited, prog.py compiled again in the same process: {text}"[:400])
+    finally:
+        shutil.rmtree(tmp, ignore_errors=True)
+    return n
+
+
 def names_of(mir):
     out = set()
     out.update(("input", i["name"]) for i in mir["inputs"])
@@ -515,6 +554,7 @@ def run(res, tier):
     fp = fresh_process_histories(res, tier)
     fp["after_unloadable_programs"] = unloadable_then_good(res)
     fp["same_named_helper_orders"] = same_named_helpers(res, tier)
+    fp["nested_helper_edits"] = nested_helper_edit(res)
     for idx, d, combined in diffs[:5]:
         res.broken.append({"decl": "K3 correspondence (history run: model vs real implementation)",
                            "msg": json.dumps(d, default=str)[:500], "history": combined})
@@ -546,6 +586,13 @@ class _Collect:
 
 
 def replay(obj):
+    if obj.get("kind") == "nested-helper-edit":
+        r = _Collect()
+        nested_helper_edit(r)
+        print(r.violations or "ok")
+        if r.violations:
+            print("VIOLATION property=C08 replay=(replayed)")
+        return 1 if r.violations else 0
     if obj.get("kind") == "after-unloadable":
         c = _Collect()
         unloadable_then_good(c)
